@@ -1036,12 +1036,13 @@ Qed.
    rendering of its directive *)
 Lemma canonical_linked : forall E m v quoted ts al ps,
   directive_ok v quoted ts al = true ->
+  env_ok E = true ->
   md_doc m = Some (canonical_doc v quoted ts al) ->
-  typed_params E m = map (fun pk => (fst pk, Some (snd pk))) ps ->
+  typed_params E (upper v) m = map (fun pk => (fst pk, Some (snd pk))) ps ->
   linked E m {| s_verb := upper v; s_toks := ts; s_alias := al; s_params := ps |}.
 Proof.
-  intros E m v quoted ts al ps Hok Hdoc Hty. destruct (canonical_parses v quoted ts al Hok) as [H1 H2].
-  exists (canonical_doc v quoted ts al). repeat split; assumption.
+  intros E m v quoted ts al ps Hok HE Hdoc Hty. destruct (canonical_parses v quoted ts al Hok) as [H1 H2].
+  split; [exact HE|]. exists (canonical_doc v quoted ts al). repeat split; assumption.
 Qed.
 
 (* the main theorem with [linked] discharged by the rendering *)
@@ -1049,8 +1050,9 @@ Lemma request_for_canonical :
   forall fmt_v join_path json_marshal url_query sigma_d (sigma sigma_h : oracle) E I m v quoted ts al ps base args,
   is_oracle sigma -> is_oracle sigma_h ->
   directive_ok v quoted ts al = true ->
+  env_ok E = true ->
   md_doc m = Some (canonical_doc v quoted ts al) ->
-  typed_params E m = map (fun pk => (fst pk, Some (snd pk))) ps ->
+  typed_params E (upper v) m = map (fun pk => (fst pk, Some (snd pk))) ps ->
   wf_mspec {| s_verb := upper v; s_toks := ts; s_alias := al; s_params := ps |} = true ->
   args_in_guard fmt_v {| s_verb := upper v; s_toks := ts; s_alias := al; s_params := ps |} args = true ->
   exists d, cook_method sigma E m = COk d /\
